@@ -28,7 +28,7 @@ SOURCES = [
     {"cmd": "from-master-xprv", "xk": ("prv", True, 44)},
     {"cmd": "from-master-xprv", "xk": ("prv", False, 84)},
 ]
-ACCOUNTS = [0, 5, H - 2]
+ACCOUNTS = [0, 5, H - 2, 49]
 INTERVALS = [[0, 1], [0, 0], [0, 3], [7, 9], [7, 7], [3, 1]]
 ROOT = hd.node_from_priv(0x7A1B2C3D4E5F60718293A4B5C6D7E8F9000102030405060708090A0B0C0D0E0F, bytes.fromhex("c3" * 32))
 
